@@ -839,6 +839,9 @@ func TestVerifC14StoreKill(t *testing.T) {
 			tmps = append(tmps, c14kTmpOther)
 		}
 	}
+	if len(tmps) == 1 {
+		r.Note("store-kill: scratch %s is not on /dev/shm (full?) or no second file system is available: only the %s placement of TMPDIR is explored", g.base, c14kTmpSame)
+	}
 	cleanup := func() {
 		if os.Getenv("C14_KEEP") != "" {
 			return
